@@ -64,7 +64,9 @@ CHECKS = {
         text='TLC enumerates messages (4 types x optional-field subsets x field orders x unknown field x flags x bodies x '
              'byte order x signature position); the implementation parses each reference encoding (compared with the '
              'model) and builds each constructible one (bytes judged by WellFormed/Recovered in TLC, serial counter '
-             'included); random messages both ways; size limit via overridable _maxMsgLen (real 128 MiB in thorough).',
+             'included); random messages both ways; parsed messages serialised again with the sender stamped (TraceResent); runs of '
+             'descriptor-carrying calls; names that already served in another role; size limit via overridable _maxMsgLen '
+             '(real 128 MiB in thorough).',
         design_ref='DESIGN.md section 3 (C03)',
         note='Trusts: TLC; constructed field order is not prescribed (judged by reference parser); names validity is C18.'),
     'C05': dict(
@@ -74,9 +76,12 @@ CHECKS = {
              'nested arrays, variants) and checks the linear step bound - and that the repaired defect (zero-size array '
              'elements) violates it as a deviation; the implementation decodes the same inputs plus every truncation, bit '
              'flip and length lie of a message corpus and grammar-directed hostile signatures under an interpreter call '
-             'counter with abort; the recorded work is judged against the linear bound by TLC.',
+             'counter with abort, and grammar-directed sibling-container signatures and header count lies in a CPU-limited child '
+             'process recording CPU time and peak allocation; the recorded work (calls, CPU, memory) is judged against the linear '
+             'bound by TLC; valid messages decoded in between must decode as before (isolation).',
         design_ref='DESIGN.md section 3 (C05)',
-        note='Trusts: call events as a proxy for work (<= 40 per abstract step + 400); any Python exception counts as rejection.'),
+        note='Trusts: call events (<= 40 per abstract step + 400), CPU time (<= 5 ms per step + 1 s) and tracemalloc peak '
+             '(<= 4 KB per step + 4 MB) as measures of work; any Python exception counts as rejection.'),
     'C18': dict(
         technique='TLA+ spec Validators.tla (grammar and automaton over character classes, generator machine); one '
                   'implementation test per reachable string; random long strings judged by TLC',
@@ -106,14 +111,18 @@ CHECKS = {
         design_ref='DESIGN.md section 3 (C15)',
         note='Trusts: TLC; complete types are opaque strings here (splitting is C19); standard DBus interfaces filtered.'),
     'C06': dict(
-        technique='TLA+ spec AuthServer.tla (finite server automaton, stub and real mechanism semantics) model-checked by '
-                  'TLC; full graph replayed on a real BusProtocol; recorded line streams validated by TLC',
+        technique='TLA+ specs AuthServer.tla (finite server automaton, stub and real mechanism semantics) and CookieJar.tla '
+                  '(several connections on one keyring) model-checked by TLC; graphs replayed on real BusProtocols; recorded '
+                  'line streams and histories validated by TLC',
         text='The automaton is finite, so TLC covers all line sequences of any length (Safety: authenticated only after an '
              'accepting mechanism and BEGIN; rejection limit; close rules; wrong cookie never accepted; cookie lifecycle). Every '
              'edge, all paths to depth 3 (4), long random walks and coalesced reads (several lines, NUL byte and post-close '
              'traffic in one read) are replayed on a real BusProtocol/BusAuthenticator with scripted stub mechanisms and with '
              'the real EXTERNAL / DBUS_COOKIE_SHA1 (temporary keyring, independently computed responses) / ANONYMOUS '
-             'mechanisms; random line streams split across reads are validated by TLC.',
+             'mechanisms; random line streams split across reads are validated by TLC. CookieJar.tla: 3 (4) connections of one '
+             'user sharing the keyring file (challenge / conforming or wrong answer / cancel / drop / expiry; unique live ids, own '
+             'cookie found, conforming accepted, wrong never accepted, no collateral removal, no leak; the delete-by-id deviation '
+             'must violate NoCollateral), edge-cover tours and walks replayed on real BusProtocols with a temporary keyring.',
         design_ref='DESIGN.md section 3 (C06)',
         note='Trusts: TLC; fake SO_PEERCRED; exceptions escaping dataReceived are projected as close.'),
     'C07': dict(
@@ -135,7 +144,9 @@ CHECKS = {
              'trailing slash, all message types) and the constraints its rule text must express; the real MessageRouter, the '
              'client addMatch path (rule text parsed and compared) and the bus rule parser + router must reproduce them. '
              'An add/remove/route history machine (raising callbacks, id freshness) is explored exhaustively and replayed on a '
-             'real client connection; random rules over a larger value space and proxy subscriptions are judged by TLC.',
+             'real client connection (distinct callables, one shared callable, self-removing callbacks); random rules over a '
+             'larger value space and proxy subscriptions are judged by TLC; Signals.tla runs emitSignal -> built-in bus -> '
+             'notifyOnSignal / cancelSignalNotification end to end on real clients (two deviations of the code named as constants).',
         design_ref='DESIGN.md section 3 (C12)',
         note='Trusts: TLC; sender= and arg0namespace are outside the property; only argument index 0 is modelled.'),
     'C16': dict(
@@ -172,12 +183,15 @@ CHECKS = {
         note='Trusts: TLC; undispatched calls flagged no-reply are outside the model (property allows 0 or 1 reply).'),
     'C13': dict(
         technique='TLA+ spec Bus.tla (name table: queues, flags, reply codes, signals) model-checked by TLC with action '
-                  'properties; graph replayed on a real Bus; recorded histories validated by TLC',
+                  'properties; graphs replayed on a real Bus through two drivers (message bytes; real clients using the client '
+                  'API); recorded histories validated by TLC',
         text='TLC explores all histories of Hello / RequestName (8 flag combinations) / ReleaseName / GetNameOwner / '
              'ListQueuedOwners / disconnect for 2 clients with a reconnection (reply soundness, replacement only if agreed, '
-             'succession, released-is-gone, no dead or duplicate queue entries) and the invariants for 3 clients; every edge and '
-             'random walks are replayed on a real Bus with one BusProtocol per connection, comparing every reply and signal each '
-             'client receives; random histories with up to 4 (6) clients on 2 names are validated by TLC.',
+             'succession, released-is-gone, no dead or duplicate queue entries) and for 3 clients; every edge and random walks of '
+             'the 2-client graph and sampled (thorough: all) edge-cover tours and walks of the 3-client graph are replayed on a '
+             'real Bus, comparing every reply and signal each client receives - once with scripted message bytes, once with real '
+             'DBusClientConnections using requestBusName / releaseBusName / getNameOwner / listQueuedBusNameOwners / disconnect; '
+             'random histories with up to 4 (6) clients on 2 names are validated by TLC.',
         design_ref='DESIGN.md section 3 (C13)',
         note='Trusts: TLC; a replaced owner leaves the queue (as code); the table is observed through replies and signals only.'),
     'C14': dict(
@@ -188,7 +202,8 @@ CHECKS = {
              'AddMatch / RemoveMatch and broadcasts for 2 clients with a reconnection (unique names fresh and never reused, '
              'nothing delivered to dead connections); every edge and random walks are replayed on a real Bus comparing, field by '
              'field, everything each connection receives; random histories with up to 4 clients, 2 names, 6 rules and 3 signals '
-             'are validated by TLC.',
+             'are validated by TLC; a sample of the delivered bytes (every kind x byte order x flags x forged or not, bodies with '
+             'typed variants) is parsed by the reference parser of Message.tla (forwarded = sent except SENDER; well-formed).',
         design_ref='DESIGN.md section 3 (C14)',
         note='Trusts: TLC; one action per message the bus reads (its read order is the delivery interleaving); broadcasts are '
              'compared copy for copy (one per matching rule), stronger than the set of connections the property names.'),
